@@ -44,7 +44,10 @@ func c03Graph(n, m, k int) *gen.Graph {
 // c03Pipe: two producers deliver two tokens each on their own incoming flow of G, at moments the answer order
 // chooses: start -> fork -> {fA -> a1,a2 -> mA -> G ; fB -> b1,b2 -> mB -> G}; G(2,M) -> d1..dM -> J(M,1) -> tl -> end.
 // G must not release while one of its incoming flows has no token, however many arrived on the other.
-func c03Pipe(m int) *gen.Graph {
+func c03Pipe(m int) *gen.Graph { return c03PipeN(m, 2) }
+
+// c03PipeN: per tokens per producer
+func c03PipeN(m, per int) *gen.Graph {
 	g := gen.NewGraph("c03p")
 	s := g.Add(gen.Start, "start", "")
 	fork := g.Add(gen.And, "fork", "")
@@ -54,7 +57,7 @@ func c03Pipe(m int) *gen.Graph {
 		f := g.Add(gen.And, "f"+x, "")
 		mg := g.Add(gen.Xor, "m"+x, "")
 		g.Connect(fork, f, nil)
-		for i := 1; i <= 2; i++ {
+		for i := 1; i <= per; i++ {
 			t := g.Add(gen.Task, fmt.Sprintf("%s%d", x, i), "")
 			g.Connect(f, t, nil)
 			g.Connect(t, mg, nil)
@@ -112,6 +115,43 @@ func c03Cases(tier string, seed uint64) []fw.Case {
 		sc := step.Case{Name: fmt.Sprintf("storm-pipe-M%d", m), G: g, Storm: true, Hooks: 0.3, Reps: reps, Family: "pipelined"}
 		cs = append(cs, fw.MkCase("storm", &sc))
 	}
+	// three tokens per incoming flow (queues of parked tokens longer than two)
+	ups3 := []string{"a1", "a2", "a3", "b1", "b2", "b3"}
+	for m := 1; m <= 2; m++ {
+		g := c03PipeN(m, 3)
+		perms := fw.Permutations(6)
+		for pi, perm := range perms {
+			if m == 2 && pi%6 != 0 {
+				continue
+			}
+			if tier != "thorough" && pi%3 != int(seed%3) && m == 1 {
+				continue
+			}
+			ref := refsem.New(g, nil, nil)
+			ref.StartAll()
+			var order []string
+			for _, pi := range perm {
+				order = append(order, ups3[pi])
+				ref.Answer(ups3[pi], nil)
+				for guard := 0; guard < 20; guard++ {
+					next := ""
+					for _, t := range ref.PendingList() {
+						if t[0] == 'd' || t == "tl" {
+							next = t
+							break
+						}
+					}
+					if next == "" {
+						break
+					}
+					order = append(order, next)
+					ref.Answer(next, nil)
+				}
+			}
+			sc := step.Case{Name: fmt.Sprintf("pipe3-M%d-%v", m, perm), G: g, Order: order, Family: "pipelined"}
+			cs = append(cs, fw.MkCase("stepwise", &sc))
+		}
+	}
 	for n := 1; n <= 4; n++ {
 		for m := 1; m <= 4; m++ {
 			for k := 1; k <= 3; k++ {
@@ -148,7 +188,7 @@ func init() {
 		Run: func(c fw.Case, env *fw.Env) *fw.V {
 			return runStep("C03", c, env, conservation)
 		},
-		Rule: "enumerated: all N,M in 1..4 x all N! finishing orders of the upstream tasks x k in 1..3 activations (396 stepwise cases, engine compared with the reference token game at every quiescent step) + pipelined arrivals (two producers delivering two tokens each on their own incoming flow of a 2 x M gateway, all 24 finishing orders: the gateway must not release while one incoming flow is empty, however many tokens arrived on the other) + storm runs with concurrent answers per shape; non-trivial = gateway present and >=2 requests pending at once or a condition routed (all cases with N>1 or M>1, plus loops); distinct = distinct descriptor hash",
+		Rule: "enumerated: all N,M in 1..4 x all N! finishing orders of the upstream tasks x k in 1..3 activations (396 stepwise cases, engine compared with the reference token game at every quiescent step) + pipelined arrivals (two producers delivering two tokens each on their own incoming flow of a 2 x M gateway, all 24 finishing orders, and three tokens each with 240 / 720 + 120 of the 720 orders: the gateway must not release while one incoming flow is empty, however many tokens arrived on the other, and no parked token may be lost) + storm runs with concurrent answers per shape; non-trivial = gateway present and >=2 requests pending at once or a condition routed (all cases with N>1 or M>1, plus loops); distinct = distinct descriptor hash",
 		Exhaustive: func(string) bool { return true },
 		Assumptions: []string{"reference token game (internal/refsem) is the oracle for observed requests", "quiescence = all labelled goroutines blocked in one stop-the-world snapshot, twice in a row"},
 	})
